@@ -34,8 +34,8 @@ def reserved_words():
     return words
 
 
-def run_text(probe, text, fresh=False):
-    r = probe.safe_call({"op": "eval", "text": text, "strict": True, "fresh": fresh, "reuse_max": 100}, timeout=20.0)
+def run_text(probe, text, fresh=False, strict=True):
+    r = probe.safe_call({"op": "eval", "text": text, "strict": strict, "fresh": fresh, "reuse_max": 100}, timeout=20.0)
     if "panic" in r or "crash" in r or "hang" in r:
         return "crash", None
     if "inconclusive" in r:
@@ -303,14 +303,21 @@ def task_rebinding(args):
     d = os.path.join(core.SCRATCH, "c10r-%d" % os.getpid())
     os.makedirs(d, exist_ok=True)
     for i, (want, label, text) in enumerate(cases):
-        for mode in ("eval", "build"):
-            if mode == "eval":
-                st, b = run_text(probe, text, fresh=False)
+        # immutability does not depend on the --no-strict flag (which is about unset environment variables and missing
+        # fields): the same verdict with strict checking off, in the library and (every 7th case) through the real CLI
+        for mode in ("eval", "build", "eval-no-strict", "build-no-strict") + (("cli-no-strict",) if i % 7 == 0 else ()):
+            if mode.startswith("eval"):
+                st, b = run_text(probe, text, fresh=False, strict=(mode == "eval"))
+            elif mode == "cli-no-strict":
+                with core.TempProject("c10ns") as tp:
+                    tp.write("r.ucg", text)
+                    ev = core.run_cli(["--no-strict", "build", "r.ucg"], tp.root)
+                    st = "ok" if ev["exit"] == 0 else ("fail" if ev["exit"] == 1 and not ev.get("signal") else "crash")
             else:
                 path = os.path.join(d, "r%d.ucg" % i)
                 with open(path, "w") as f:
                     f.write(text)
-                rr = probe.safe_call({"op": "build", "path": path, "strict": True, "reuse_max": 100}, timeout=20.0)
+                rr = probe.safe_call({"op": "build", "path": path, "strict": (mode == "build"), "reuse_max": 100}, timeout=20.0)
                 os.remove(path)
                 st = "ok" if rr.get("ok") else ("fail" if "err" in rr else "crash")
             res.case((mode, text))
@@ -377,7 +384,7 @@ def check_witness(w):
                 if any(n not in b_n or not refint.same(v, b_n[n]) for n, v in b_k.items()):
                     res.violation(["binding-changes-value"], w, {})
         elif "want" in w:
-            st, b = run_text(probe, w["text"], True)
+            st, b = run_text(probe, w["text"], True, strict=not str(w.get("mode", "")).endswith("no-strict"))
             if w["want"] == "fail" and st == "ok":
                 res.violation(["rebinding-accepted"], w, {})
             if w["want"] == "ok" and st == "fail":
